@@ -58,6 +58,23 @@ func checkU128(c *vcommon.Case, u *scale.Uint128) {
 	if err := fromDec.UnmarshalJSON([]byte(V.String())); err != nil || fromDec != *u {
 		c.Violation("json-decode", fmt.Sprintf("UnmarshalJSON(%s)=%+v err=%v", V, fromDec, err), w)
 	}
+	// decoding into a destination that already holds another value (encoding/json reuses non-nil
+	// *Uint128 struct fields) must overwrite it completely
+	for _, prev := range []scale.Uint128{{Upper: ^uint64(0), Lower: ^uint64(0)}, {Upper: 1, Lower: 0}, {Upper: 0, Lower: 1 << 63}, {Upper: u.Lower, Lower: u.Upper}} {
+		dst := prev
+		if err := dst.UnmarshalJSON([]byte(V.String())); err != nil || dst != *u {
+			w["previous"] = map[string]any{"upper": prev.Upper, "lower": prev.Lower}
+			c.Violation("json-decode-reused-destination", fmt.Sprintf("UnmarshalJSON(%s) into a value holding (%d,%d) = (%d,%d) err=%v", V, prev.Upper, prev.Lower, dst.Upper, dst.Lower, err), w)
+			break
+		}
+		holder := struct{ A *scale.Uint128 }{A: &scale.Uint128{Upper: prev.Upper, Lower: prev.Lower}}
+		if err := json.Unmarshal([]byte(`{"A":`+V.String()+`}`), &holder); err != nil || holder.A == nil || *holder.A != *u {
+			c.Violation("json-decode-reused-field", fmt.Sprintf("json.Unmarshal of %s into a pre-populated *Uint128 field gave %+v err=%v", V, holder.A, err), w)
+			break
+		}
+		c.Count("json_decodes_into_reused_destination", 2)
+	}
+	c.Eval(8)
 	if leToBig(le).Cmp(V) != 0 {
 		c.Violation("bytes-le", fmt.Sprintf("Bytes(LE)=%x denotes %s want %s", le, leToBig(le), V), w)
 	}
@@ -90,6 +107,7 @@ func TestVerifC13(t *testing.T) {
 	defer r.Finish()
 	r.Floor("non_palindromic", 50)
 	r.Floor("values", 400)
+	r.Floor("json_decodes_into_reused_destination", 2000)
 
 	// fixed corpus: byte boundaries and asymmetric patterns (seed independent)
 	var fixed []*scale.Uint128
